@@ -29,6 +29,7 @@ type SeqProfile struct {
 	Assume   []string         // evidence: assumptions
 	KF       []string         // known findings enabled for this check
 	Hist     func(id int, seed int64) *History // custom history generator (overrides Gen)
+	RunHist  func(r *SeqRun, h *History, tw *TraceWriter, root string) // custom executor of one history (crash images ...)
 }
 
 type DesignRun struct {
@@ -141,6 +142,16 @@ func (r *SeqRun) execHistories(hs []*History, tag string) {
 				h := hs[i]
 				dir := filepath.Join(r.Scratch, fmt.Sprintf("d-%s-%d", tag, h.ID))
 				os.MkdirAll(dir, 0o700)
+				if r.P.RunHist != nil {
+					tw.Emit(map[string]any{"ev": "reset", "hid": h.ID})
+					n0 := tw.n
+					r.P.RunHist(r, h, tw, r.Scratch)
+					for k := n0; k < tw.n; k++ {
+						sigs[fmt.Sprintf("%d-%d", h.ID, k)] = struct{}{}
+					}
+					os.RemoveAll(dir)
+					continue
+				}
 				x := NewExec(h, dir, tw, r.P.Obs)
 				x.sigHook = func() { sigs[fmt.Sprintf("%v%v|%s", h.Keys, h.Times, dirSig(dir))] = struct{}{} }
 				x.Run()
@@ -403,8 +414,13 @@ func (r *SeqRun) replayHistory(h *History) (bool, int, string) {
 	}
 	d := filepath.Join(dir, "log")
 	os.MkdirAll(d, 0o700)
-	x := NewExec(h, d, tw, r.P.Obs)
-	x.Run()
+	if r.P.RunHist != nil {
+		tw.Emit(map[string]any{"ev": "reset", "hid": h.ID})
+		r.P.RunHist(r, h, tw, dir)
+	} else {
+		x := NewExec(h, d, tw, r.P.Obs)
+		x.Run()
+	}
 	tw.Close()
 	run, bad := validateTrace(r.P.Module, r.P.Cfg, path, r.Scratch)
 	if run.Infra != nil {
